@@ -478,3 +478,85 @@ func init() {
 	h.Prop("print_redirect", 30000, 1500000, genPrint, runPrint)
 	h.Prop("pipe_getline", 16000, 600000, genGetline, runGetline)
 }
+
+// ---------------------------------------------------------------------------
+// a unary operator written directly after a binary operator, without the
+// parentheses the table would ask for: "a OP1 - b OP2 c".  The grammar accepts
+// it; the table still says how far the sign reaches: over a following ^ (which
+// binds tighter than a sign), over nothing else.
+
+type SignCase struct {
+	Op1 string `json:"op1"`
+	U   string `json:"u"`
+	Op2 string `json:"op2"` // "" = none
+	Ctx string `json:"ctx"`
+}
+
+var signBinOps = []string{"||", "&&", "~", "!~", "<", "<=", "==", "!=", ">=", "+", "-", "*", "/", "%", "^"}
+
+func isRel(op string) bool { return awk.BinPrec(op) == awk.BinPrec("<") }
+
+func enumSign(thorough bool, yield func(SignCase) bool) {
+	for _, ctx := range []string{"stmt", "cond", "pattern"} {
+		for _, op1 := range signBinOps {
+			for _, u := range []string{"-", "+", "!"} {
+				for _, op2 := range append([]string{"", " "}, signBinOps...) {
+					if op2 != "" && op2 != " " && (isRel(op1) && isRel(op2) || awk.BinPrec(op1) == awk.BinPrec("~") && awk.BinPrec(op2) == awk.BinPrec("~")) {
+						continue // relational operators do not associate (and goawk does not chain ~ / !~ either)
+					}
+					if !yield(SignCase{op1, u, op2, ctx}) {
+						return
+					}
+				}
+			}
+		}
+	}
+}
+
+func runSign(x *h.Ctx, c SignCase) string {
+	a, b, cc := awk.VarN("a"), awk.VarN("b"), awk.VarN("c")
+	var want *awk.Node
+	src := "a " + c.Op1 + " " + c.U + " b"
+	switch {
+	case c.Op2 == "":
+		want = awk.BinN(a, c.Op1, awk.UnaryN(c.U, b))
+	case c.Op2 == "^":
+		// the sign is looser than ^: it reaches over the whole power
+		src += " ^ c"
+		want = awk.BinN(a, c.Op1, awk.UnaryN(c.U, awk.BinN(b, "^", cc)))
+	default:
+		if c.Op2 == " " {
+			src += " c"
+		} else {
+			src += " " + c.Op2 + " c"
+		}
+		ub := awk.UnaryN(c.U, b)
+		p1, p2 := awk.BinPrec(c.Op1), awk.BinPrec(c.Op2)
+		if p1 > p2 || p1 == p2 && c.Op1 != "^" {
+			want = awk.BinN(awk.BinN(a, c.Op1, ub), c.Op2, cc)
+		} else {
+			want = awk.BinN(a, c.Op1, awk.BinN(ub, c.Op2, cc))
+		}
+	}
+	wantS := awk.Canon(want, elide)
+	_, p, err := awk.Parse(wrap(c.Ctx, src))
+	if err != nil {
+		return fmt.Sprintf("a sign written directly after a binary operator is not accepted: %v\nsource: %s\ncontext: %s", err, src, c.Ctx)
+	}
+	e, why := extract(c.Ctx, p)
+	if e == nil {
+		return fmt.Sprintf("%q parses to a different statement shape: %s", src, why)
+	}
+	if got := awk.Canon(e, elide); got != wantS {
+		return fmt.Sprintf("a sign directly after a binary operator groups against the table (a sign is looser than ^ and tighter than every other binary operator)\nsource:  %s\nparsed:  %s\nwant:    %s\ncontext: %s", src, got, wantS, c.Ctx)
+	}
+	x.Class("ctx-" + c.Ctx)
+	if c.Op2 != "" {
+		x.Nontrivial(c.Ctx + "|" + src)
+	}
+	return ""
+}
+
+func init() {
+	h.Enum("sign_after_binary_operator", enumSign, runSign)
+}
